@@ -603,9 +603,25 @@ class _FloatOperand(Exception):
 
 def _floatop(fn):
     import functools
+    import math
 
     @functools.wraps(fn)
     def w(self, o):
+        name = fn.__name__
+        if isinstance(o, float) and math.isfinite(o) and name in ('__lt__', '__le__', '__gt__', '__ge__', '__eq__', '__ne__'):
+            # exact integer reformulation of int-vs-float comparisons
+            fl, ce = math.floor(o), math.ceil(o)
+            if name == '__lt__':
+                return fn(self, ce)
+            if name == '__le__':
+                return _cmp('<=', self, fl)
+            if name == '__gt__':
+                return _cmp('<', fl, self)
+            if name == '__ge__':
+                return _cmp('<=', ce, self)
+            if name == '__eq__':
+                return fn(self, fl) if fl == ce else False
+            return fn(self, fl) if fl == ce else True
         try:
             return fn(self, o)
         except _FloatOperand:
